@@ -21,6 +21,11 @@ import (
 
 	"verif/checks/h1harness"
 	"verif/lib"
+
+	martian "github.com/google/martian/v3"
+	"github.com/google/martian/v3/har"
+	"github.com/google/martian/v3/marbl"
+	"github.com/google/martian/v3/martianlog"
 )
 
 const originHost = "origin.test"
@@ -43,6 +48,7 @@ type Scenario struct {
 	Reused bool   `json:"reused,omitempty"` // the fault hits an upstream connection that already served a warm-up exchange
 	Method string `json:"m,omitempty"`      // method of request 1 (GET | POST)
 	Proto  string `json:"p,omitempty"`      // client protocol: 1.1 | 1.0ka
+	Mod    string `json:"mod,omitempty"`    // stock modifier installed as request+response modifier: "" | har | martianlog | marbl
 	M2     string `json:"m2,omitempty"`     // method of the second request ("" = GET | POST | HEAD)
 	Pipe   bool   `json:"pipe,omitempty"`   // the second request is already sent (same write) when the fault happens
 	Split  int    `json:"split,omitempty"`  // > 0: the origin writes its k bytes in two writes, cut at this offset
@@ -192,13 +198,27 @@ func corruptionBases() []corpusEntry {
 	}
 }
 
-func scenarios(tier string) ([]Scenario, map[string]int) {
-	var list []Scenario
+// scenarios enumerates the scenario space; only the scenarios selected by keep are materialised (a worker keeps
+// its own share, the parent none), all are counted.
+func scenarios(tier string, keep func(id int) bool) (map[int]*Scenario, int, map[string]int) {
+	list := map[int]*Scenario{}
+	total := 0
 	fam := map[string]int{}
 	add := func(s Scenario) {
-		s.ID = len(list)
-		list = append(list, s)
+		s.ID = total
+		total++
 		fam[s.Kind]++
+		if keep == nil || !keep(s.ID) {
+			return
+		}
+		// loopback-TCP re-run of every 9th (quick) / 197th (thorough) scenario, except the multi-megabyte streams
+		if !(s.Script == "oversized_header" || s.Script == "huge_method" || s.Script == "long_uri" || s.Script == "long_header") {
+			s.TCP = s.ID%9 == 0
+			if tier == "thorough" {
+				s.TCP = s.ID%197 == 0 // sparser: loopback sockets linger in TIME_WAIT and ephemeral ports are finite
+			}
+		}
+		list[s.ID] = &s
 	}
 	protos := []string{"1.1"}
 	if tier == "thorough" {
@@ -234,21 +254,50 @@ func scenarios(tier string) ([]Scenario, map[string]int) {
 			}
 		}
 	}
-	// 1b (thorough). the short scripts again with the origin's k bytes cut into two writes at every offset j < k
-	if tier == "thorough" {
+	// 1c. the same with a stock body-handling modifier installed as request and response modifier
+	// (har.NewLogger(), martianlog.NewLogger(), marbl.NewModifier): quick: the three short scripts chunked /
+	// Content-Length / close-delimited; thorough: every script (the 5200-byte ones with fewer variants)
+	mods := []string{"har", "martianlog", "marbl"}
+	for _, mod := range mods {
 		for _, sc := range scripts(tier) {
-			if len(sc.wire) > 260 {
+			quickSet := sc.name == "chunked" || sc.name == "cl" || sc.name == "close_delimited"
+			if tier != "thorough" {
+				if !quickSet {
+					continue
+				}
+				for _, reused := range []bool{false, true} {
+					for _, m := range []string{"GET", "POST"} {
+						for k := 0; k <= len(sc.wire); k++ {
+							add(Scenario{Kind: "truncate", Script: sc.name, K: k, Reused: reused, Method: m, Proto: "1.1", Mod: mod})
+						}
+					}
+				}
 				continue
 			}
-			for _, reused := range []bool{false, true} {
-				for _, m := range []string{"GET", "POST"} {
-					for k := 2; k <= len(sc.wire); k++ {
-						for j := 1; j < k; j++ {
-							add(Scenario{Kind: "truncate", Script: sc.name, K: k, Split: j, Reused: reused, Method: m, Proto: "1.1"})
+			for _, pr := range protos {
+				for _, reused := range []bool{false, true} {
+					for _, m := range methods {
+						for _, m2 := range m2s {
+							for _, pipe := range pipes {
+								last := len(sc.wire)
+								if m == "HEAD" {
+									last = sc.headLen
+								}
+								for k := 0; k <= last; k++ {
+									add(Scenario{Kind: "truncate", Script: sc.name, K: k, Reused: reused, Method: m, Proto: pr, M2: m2, Pipe: pipe, Mod: mod})
+								}
+							}
 						}
 					}
 				}
 			}
+			twoWrites(sc, mod, add)
+		}
+	}
+	// 1b (thorough). the origin's k bytes cut into two writes (no modifier; with modifiers: above)
+	if tier == "thorough" {
+		for _, sc := range scripts(tier) {
+			twoWrites(sc, "", add)
 		}
 	}
 	// 2. dial outcomes
@@ -333,17 +382,38 @@ func scenarios(tier string) ([]Scenario, map[string]int) {
 			}
 		}
 	}
-	for i := range list {
-		s := &list[i]
-		if len(list[i].Script) > 0 && (s.Script == "oversized_header" || s.Script == "huge_method" || s.Script == "long_uri" || s.Script == "long_header") {
-			continue
-		}
-		s.TCP = i%9 == 0
-		if tier == "thorough" {
-			s.TCP = i%97 == 0 // sparser: loopback sockets linger in TIME_WAIT and ephemeral ports are finite
+	return list, total, fam
+}
+
+// twoWrites: the origin writes its k bytes in two writes cut at j. Scripts up to 260 bytes: every pair j < k;
+// longer scripts: every k with j in {1, k/2, k-1}, and the complete response cut at every j.
+func twoWrites(sc script, mod string, add func(Scenario)) {
+	n := len(sc.wire)
+	for _, reused := range []bool{false, true} {
+		for _, m := range []string{"GET", "POST"} {
+			if n <= 260 {
+				for k := 2; k <= n; k++ {
+					for j := 1; j < k; j++ {
+						add(Scenario{Kind: "truncate", Script: sc.name, K: k, Split: j, Reused: reused, Method: m, Proto: "1.1", Mod: mod})
+					}
+				}
+				continue
+			}
+			if reused {
+				continue
+			}
+			for k := 4; k <= n; k++ {
+				for _, j := range []int{1, k / 2, k - 1} {
+					add(Scenario{Kind: "truncate", Script: sc.name, K: k, Split: j, Method: m, Proto: "1.1", Mod: mod})
+				}
+			}
+			for j := 2; j < n-1; j++ {
+				if j != n/2 {
+					add(Scenario{Kind: "truncate", Script: sc.name, K: n, Split: j, Method: m, Proto: "1.1", Mod: mod})
+				}
+			}
 		}
 	}
-	return list, fam
 }
 
 // ---------------------------------------------------------------------------------------------------
@@ -381,6 +451,44 @@ func (r *recorder) sawWarningOn502(w string) bool {
 	}
 	return false
 }
+
+// stockModifier returns the request and response modifiers of a configuration: the recording modifier alone,
+// or a stock martian modifier followed by the recording modifier (the stock modifier's error is returned to
+// the proxy, as a modifier group would).
+type chained struct {
+	first martian.ResponseModifier
+	rec   *recorder
+}
+
+func (c chained) ModifyResponse(res *http.Response) error {
+	err := c.first.ModifyResponse(res)
+	c.rec.ModifyResponse(res)
+	return err
+}
+
+var marblOnce sync.Once
+var marblMod *marbl.Modifier
+
+func stockModifier(name string, rec *recorder) (martian.RequestModifier, martian.ResponseModifier) {
+	switch name {
+	case "har":
+		l := har.NewLogger()
+		return l, chained{l, rec}
+	case "martianlog":
+		l := martianlog.NewLogger()
+		l.SetLogFunc(func(string) {})
+		return l, chained{l, rec}
+	case "marbl":
+		// one stream (and its goroutine) per process, written to nowhere
+		marblOnce.Do(func() { marblMod = marbl.NewModifier(discard{}) })
+		return marblMod, chained{marblMod, rec}
+	}
+	return nil, rec
+}
+
+type discard struct{}
+
+func (discard) Write(p []byte) (int, error) { return len(p), nil }
 
 // ---------------------------------------------------------------------------------------------------
 // execution
@@ -505,7 +613,8 @@ func runScenario(s *Scenario, kind string, quiet time.Duration) *runOut {
 	if s.Dial == "accept_close" {
 		origin.OnAccept = func(conn int) bool { return conn == 0 }
 	}
-	env, err := h1harness.NewEnv(h1harness.EnvOpts{Kind: kind, ResMod: rec, Dial: func(n int, addr string) error {
+	reqmod, resmod := stockModifier(s.Mod, rec)
+	env, err := h1harness.NewEnv(h1harness.EnvOpts{Kind: kind, ResMod: resmod, ReqMod: reqmod, Dial: func(n int, addr string) error {
 		if s.Dial == "refused" && n == 0 {
 			return h1harness.Refused(addr)
 		}
@@ -555,6 +664,9 @@ func runScenario(s *Scenario, kind string, quiet time.Duration) *runOut {
 		} else {
 			class = "origin_nonhttp_after_head"
 		}
+	}
+	if s.Mod != "" {
+		class += "+modifier:" + s.Mod
 	}
 	report := func(sym, detail string) {
 		c := class
@@ -953,18 +1065,20 @@ func normOutcome(o string) string {
 
 func main() {
 	tier := lib.Tier()
-	list, fams := scenarios(tier)
+	_, total, fams := scenarios(tier, nil) // the parent only counts; workers materialise their own shares
 	if rp := os.Getenv("VERIF_REPLAY"); rp != "" {
 		replay(rp)
 		return
 	}
 	if h1harness.IsWorker() {
-		h1harness.WorkerMain(4, 180*time.Second, func(idx int) *h1harness.CaseResult { return runCase(&list[idx]) })
+		list, _, _ := scenarios(tier, h1harness.WorkerKeeps())
+		h1harness.WorkerMain(4, 180*time.Second, func(idx int) *h1harness.CaseResult { return runCase(list[idx]) })
 		return
 	}
 	rep := lib.NewReport("C03", "fault_enumeration")
-	agg := h1harness.RunAll(16, len(list), fmt.Sprintf("%s/.build/c03/work-%d", lib.Root, os.Getpid()), func(idx int, stderr string) (string, string, interface{}) {
-		s := &list[idx]
+	agg := h1harness.RunAll(16, total, fmt.Sprintf("%s/.build/c03/work-%d", lib.Root, os.Getpid()), func(idx int, stderr string) (string, string, interface{}) {
+		one, _, _ := scenarios(tier, func(id int) bool { return id == idx })
+		s := one[idx]
 		cls := "origin_fault"
 		if s.Kind == "client" {
 			cls = "client_stream"
@@ -979,8 +1093,8 @@ func main() {
 		os.Exit(2)
 	}
 	agg.Apply(rep)
-	if agg.Executed != len(list) {
-		rep.Incomplete = fmt.Sprintf("%d of %d scenarios executed", agg.Executed, len(list))
+	if agg.Executed != total {
+		rep.Incomplete = fmt.Sprintf("%d of %d scenarios executed", agg.Executed, total)
 	}
 	if n := rep.Counter("mem_tcp_disagreements"); n > 0 {
 		rep.Incomplete = fmt.Sprintf("%d in-memory/TCP disagreements (harness fidelity problem, see harness_notes)", n)
@@ -989,15 +1103,15 @@ func main() {
 		}
 	}
 	rep.Coverage["kinds"] = fams
-	rep.Coverage["states"] = len(list)
+	rep.Coverage["states"] = total
 	rep.Coverage["transitions"] = rep.Counter("origin_requests") + 2*rep.Counter("scenarios")
 	rep.Coverage["traces_validated_against_impl"] = rep.Counter("scenarios") + rep.Counter("tcp_runs")
 	rep.Coverage["evaluations"] = rep.Counter("scenarios")
 	rep.Coverage["distinct_nontrivial"] = rep.Counter("nontrivial")
 	rep.Coverage["distinct_outcomes"] = len(agg.Keys["outcomes"])
 	rep.Coverage["exhaustive"] = rep.Incomplete == ""
-	rep.Coverage["rule"] = "truncate: response script x client protocol x {fresh, reused upstream connection} x {GET, POST} x every offset k in 0..len(script) (origin writes k bytes, closes); dial: {refused, accepted-then-closed} x method; garbage: 20 non-HTTP/malformed origin answers x every prefix (oversized header: 3 offsets); client: 35 client byte streams x every prefix (3 oversized ones: listed offsets) and every single-byte corruption (replacement set) of 3 valid requests; mitm: proxy with SetMITM, 23 CONNECT request-line/Host shapes x 9 continuations after the 200 (ClientHello with SNI / without SNI / TLS 1.2 without SNI, plaintext request, two kinds of garbage, a lone 0x16, close, close without reading) and a no-SNI ClientHello cut at every offset, each followed by a marker request on a fresh connection; every other scenario continues with a well-formed request for a marker response on the same client connection. Non-trivial: the fault happens after at least one byte (k > 0), or is a dial fault or a corruption."
-	rep.Coverage["bounds"] = fmt.Sprintf("tier %s: %d scenarios %v; scripts %d; one client connection (+1 fresh probe connection for client streams); loopback-TCP re-run of every 9th scenario", tier, len(list), fams, len(scripts(tier)))
+	rep.Coverage["rule"] = "modifier configurations {none, har.NewLogger(), martianlog.NewLogger(), marbl.NewModifier} as request+response modifier for the truncation family; truncate: response script x client protocol x {fresh, reused upstream connection} x {GET, POST} x every offset k in 0..len(script) (origin writes k bytes, closes); dial: {refused, accepted-then-closed} x method; garbage: 20 non-HTTP/malformed origin answers x every prefix (oversized header: 3 offsets); client: 35 client byte streams x every prefix (3 oversized ones: listed offsets) and every single-byte corruption (replacement set) of 3 valid requests; mitm: proxy with SetMITM, 23 CONNECT request-line/Host shapes x 9 continuations after the 200 (ClientHello with SNI / without SNI / TLS 1.2 without SNI, plaintext request, two kinds of garbage, a lone 0x16, close, close without reading) and a no-SNI ClientHello cut at every offset, each followed by a marker request on a fresh connection; every other scenario continues with a well-formed request for a marker response on the same client connection. Non-trivial: the fault happens after at least one byte (k > 0), or is a dial fault or a corruption."
+	rep.Coverage["bounds"] = fmt.Sprintf("tier %s: %d scenarios %v; scripts %d; one client connection (+1 fresh probe connection for client streams); loopback-TCP re-run of every 9th (quick) / 197th (thorough) scenario", tier, total, fams, len(scripts(tier)))
 	rep.Assumptions = []string{
 		"an origin that stalls without closing is not modelled (would need the proxy's 5-minute timeout)",
 		"\"head incomplete\" is decided from the bytes the origin sent: offset < head length for the scripts, no empty line in the bytes for the non-HTTP corpus; only then is a 502 mandatory",
